@@ -401,6 +401,21 @@ def h_step(h, op):
             h.p[op['id']] = old
             return 'skip'
         return 'ok'
+    if k == 'loadx':
+        # values arrive through the x vector (as a solver delivers them), not through Var.value
+        live = h.live_vars()
+        vals = [(vid, float(val)) for vid, val in op['vals'] if vid in live]
+        if not vals or not h.cons:
+            return 'skip'
+        old = dict(h.v)
+        for vid, val in vals:
+            h.v[vid] = val
+        if not h.all_ok():
+            h.v = old
+            return 'skip'
+        op['_vals'] = vals
+        h.dirty = False          # the real side calls set_structure() before it reads x
+        return 'ok'
     if k in ('eval', 'noise', 'probe_unstructured'):
         return 'ok'
     raise ValueError('unknown op %r' % (op,))
@@ -548,5 +563,15 @@ class Real(object):
             self.v[op['id']].value = float(op['val'])
         elif k == 'setp':
             self.p[op['id']].value = float(op['val'])
+        elif k == 'loadx':
+            import numpy as np
+            self.m.set_structure()
+            x = np.array(self.m.get_x(), dtype=float)
+            for vid, val in op['_vals']:
+                x[self.v[vid].index] = val
+            if op.get('via') == 'residuals':
+                self.m.evaluate_residuals(x)
+            else:
+                self.m.load_var_values_from_x(x)
         else:
             raise ValueError(op)
